@@ -476,11 +476,11 @@ func c08GenSpnego(c *Ctx) {
 		gss(derTLV(0x30, mt, tk, tk)), gss(derTLV(0x30, mt, mic, tk)), gss(derTLV(0x30, mt, tk), []byte{1, 2, 3}), gss(derTLV(0x30, mt, tk, []byte{0x05, 0x00})),
 		gss(derTLV(0x30, st, sm, tk)), gss(derTLV(0x30, st, sm, tk, mic)), gss(derTLV(0x30, tk)), gss(derTLV(0x30, sm, tk)), gss(derTLV(0x30, st)), gss(derTLV(0x30)),
 		gss(derTLV(0x30, tk0)), gss(derTLV(0x30, st, tk0)), gss(derTLV(0x30, mic)), gss(derTLV(0x30, sm, st, tk)),
-		gss(derTLV(0x30, derTLV(0xa0, []byte{0x0a, 0x01, 0x02}), sm, tk)), // reject
-		gss(derTLV(0x30, derTLV(0xa0, []byte{0x0a, 0x02, 0x00, 0x01}), tk)),  // non-minimal enumerated
-		gss(derTLV(0x30, derTLV(0xa0, []byte{0x0a, 0x02, 0xff, 0x80}), tk)),  // non-minimal negative
-		gss(derTLV(0x30, derTLV(0xa0, []byte{0x0a, 0x02, 0xff, 0x7f}), tk)),  // -129
-		gss(derTLV(0x30, derTLV(0xa0, []byte{0x0a, 0x00}), tk)),              // empty integer
+		gss(derTLV(0x30, derTLV(0xa0, []byte{0x0a, 0x01, 0x02}), sm, tk)),      // reject
+		gss(derTLV(0x30, derTLV(0xa0, []byte{0x0a, 0x02, 0x00, 0x01}), tk)),    // non-minimal enumerated
+		gss(derTLV(0x30, derTLV(0xa0, []byte{0x0a, 0x02, 0xff, 0x80}), tk)),    // non-minimal negative
+		gss(derTLV(0x30, derTLV(0xa0, []byte{0x0a, 0x02, 0xff, 0x7f}), tk)),    // -129
+		gss(derTLV(0x30, derTLV(0xa0, []byte{0x0a, 0x00}), tk)),                // empty integer
 		gss(derTLV(0x30, derTLV(0xa0, []byte{0x0a, 0x05, 1, 0, 0, 0, 0}), tk)), // > int32
 		gss(derTLV(0x30, derTLV(0xa0, []byte{0x0a, 0x09, 1, 0, 0, 0, 0, 0, 0, 0, 0}), tk)),
 		gss(derTLV(0x30, derTLV(0xa0, []byte{0x0a, 0x04, 0x80, 0, 0, 0}), tk)),
@@ -488,10 +488,10 @@ func c08GenSpnego(c *Ctx) {
 		gss(derTLV(0x30, []byte{0xa0, 0x00}, tk)),                     // zero-length explicit tag
 		gss(derTLV(0x30, []byte{0xa2, 0x00})),                         // explicit tag at the very end: "no child"
 		gss(derTLV(0x30, mt, []byte{0xa2, 0x00})),
-		gss(derTLV(0x30, []byte{0x80, 0x01, 0x01}, tk)),                           // primitive context tag
+		gss(derTLV(0x30, []byte{0x80, 0x01, 0x01}, tk)),                                  // primitive context tag
 		gss(derTLV(0x30, []byte{0xa2, 0x81, 0x07, 0x04, 0x05, 'T', 'O', 'K', 'E', 'N'})), // non-minimal length
-		gss(derTLV(0x30, []byte{0xa2, 0x80, 0x04, 0x01, 'T', 0, 0})),                   // indefinite length
-		gss(derTLV(0x30, []byte{0xa2, 0x07, 0x04, 0x7f, 'T'})),                         // inner length beyond data
+		gss(derTLV(0x30, []byte{0xa2, 0x80, 0x04, 0x01, 'T', 0, 0})),                     // indefinite length
+		gss(derTLV(0x30, []byte{0xa2, 0x07, 0x04, 0x7f, 'T'})),                           // inner length beyond data
 		gss(derTLV(0x30, []byte{0xa2, 0x03, 0x04, 0x84, 0x7f, 0xff, 0xff, 0xff})),
 		gss(derTLV(0x30, []byte{0xa2, 0x03, 0x04, 0x84, 0x80, 0x00, 0x00, 0x00})),
 		gss(derTLV(0x30, []byte{0xa2, 0x03, 0x04, 0x85, 0x01, 0x00, 0x00, 0x00, 0x00})),
@@ -503,9 +503,9 @@ func c08GenSpnego(c *Ctx) {
 		gss(derTLV(0x30, []byte{0xbf, 0x87, 0xff, 0xff, 0xff, 0x7f, 0x00})),
 		gss(derTLV(0x30, []byte{0xbf, 0x81, 0x81, 0x81, 0x81, 0x81, 0x01, 0x00})),
 		gss(derTLV(0x30, []byte{0xbf})), gss(derTLV(0x30, []byte{0xbf, 0x81})),
-		gss(derTLV(0x30, derTLV(0xa0, derTLV(0x30, []byte{0x06, 0x00})), tk)),                               // empty OID
-		gss(derTLV(0x30, derTLV(0xa0, derTLV(0x30, []byte{0x06, 0x02, 0x2b, 0x80})), tk)),                   // truncated arc
-		gss(derTLV(0x30, derTLV(0xa0, derTLV(0x30, []byte{0x06, 0x03, 0x2b, 0x80, 0x01})), tk)),             // non-minimal arc
+		gss(derTLV(0x30, derTLV(0xa0, derTLV(0x30, []byte{0x06, 0x00})), tk)),                                     // empty OID
+		gss(derTLV(0x30, derTLV(0xa0, derTLV(0x30, []byte{0x06, 0x02, 0x2b, 0x80})), tk)),                         // truncated arc
+		gss(derTLV(0x30, derTLV(0xa0, derTLV(0x30, []byte{0x06, 0x03, 0x2b, 0x80, 0x01})), tk)),                   // non-minimal arc
 		gss(derTLV(0x30, derTLV(0xa0, derTLV(0x30, []byte{0x06, 0x06, 0x2b, 0x8f, 0xff, 0xff, 0xff, 0x7f})), tk)), // arc > int32
 		gss(derTLV(0x30, derTLV(0xa0, derTLV(0x30, []byte{0x06, 0x06, 0x2b, 0x87, 0xff, 0xff, 0xff, 0x7f})), tk)), // arc = MaxInt32
 		gss(derTLV(0x30, derTLV(0xa0, derTLV(0x30, []byte{0x06, 0x07, 0x2b, 0x81, 0x81, 0x81, 0x81, 0x81, 0x01})), tk)),
